@@ -56,6 +56,8 @@ var vpTypedKeys = []vpTypedKey{
 	{"!!int", "31", "31"},
 	{"!!int", "010", "8"}, // a leading zero is octal in YAML 1.1 style integers
 	{"!!int", "8", "8"},
+	{"!!int", "18446744073709551615", "18446744073709551615"}, // beyond int64: the YAML library hands it over as an unsigned integer
+	{"!!int", "-0x10", "-16"},
 }
 
 func vpKeyString(k *yaml.Node) string {
